@@ -391,6 +391,19 @@ static std::vector<Vec2> rep_offsets(const Repetition& r) {
     return o;
 }
 
+static bool rep_type_valid(const Repetition& r) {
+    switch (r.type) {
+        case RepetitionType::None:
+        case RepetitionType::Rectangular:
+        case RepetitionType::Regular:
+        case RepetitionType::Explicit:
+        case RepetitionType::ExplicitX:
+        case RepetitionType::ExplicitY:
+            return true;
+    }
+    return false;
+}
+
 static std::vector<canon::IPt> rep_grid(const Repetition& r, Gridder& G) {
     std::vector<canon::IPt> v;
     for (auto& o : rep_offsets(r)) v.push_back(G.g(o));
@@ -425,6 +438,7 @@ canon::CLib extract(const Library& lib, const ExtractOptions& opt) {
         if (rit != opt.region_tags.end()) rt = &rit->second;
         for (uint64_t i = 0; i < cell->polygon_array.count; i++) {
             const Polygon* p = cell->polygon_array[i];
+            if (!rep_type_valid(p->repetition)) cc.polys.push_back("INVALID repetition type in a loaded polygon (uninitialised field?)");
             std::vector<canon::IPt> pts;
             for (uint64_t k = 0; k < p->point_array.count; k++) pts.push_back(G.g(p->point_array[k]));
             if (rt && rt->count(p->tag)) {
@@ -455,6 +469,7 @@ canon::CLib extract(const Library& lib, const ExtractOptions& opt) {
                 continue;
             }
             const FlexPathElement* el = p->elements;
+            if (!rep_type_valid(p->repetition)) cc.paths.push_back("INVALID repetition type in a loaded path (uninitialised field?)");
             std::vector<canon::IPt> sp;
             for (uint64_t k = 0; k < p->spine.point_array.count; k++)
                 sp.push_back(G.g(p->spine.point_array[k]));
@@ -472,6 +487,7 @@ canon::CLib extract(const Library& lib, const ExtractOptions& opt) {
             cc.paths.push_back("UNEXPECTED robustpath in loaded cell");
         for (uint64_t i = 0; i < cell->label_array.count; i++) {
             const Label* l = cell->label_array[i];
+            if (!rep_type_valid(l->repetition)) cc.labels.push_back("INVALID repetition type in a loaded label (uninitialised field?)");
             cc.labels.push_back(canon::label_line(
                 mode, get_layer(l->tag), get_type(l->tag), l->text ? l->text : "", G.g(l->origin),
                 (int)l->anchor, l->rotation * (180.0 / M_PI), l->magnification, l->x_reflection,
@@ -479,6 +495,7 @@ canon::CLib extract(const Library& lib, const ExtractOptions& opt) {
         }
         for (uint64_t i = 0; i < cell->reference_array.count; i++) {
             const Reference* r = cell->reference_array[i];
+            if (!rep_type_valid(r->repetition)) cc.refs.push_back("INVALID repetition type in a loaded reference (uninitialised field?)");
             std::string target;
             switch (r->type) {
                 case ReferenceType::Cell: target = r->cell && r->cell->name ? r->cell->name : ""; break;
